@@ -71,4 +71,12 @@ MUTANTS = [
  dict(id='C14-poll-not-stopped-on-flush-fail', file='src/deep/api/deep.py', old="            except BaseException:\n                deep.logging.exception(\"Failed to shutdown %s\", name)\n", new="            except BaseException:\n                deep.logging.exception(\"Failed to shutdown %s\", name)\n                break\n", props=['C14']),
  dict(id='C14-notrace-wipes', file='src/deep/processor/trigger_handler.py', old="        if self._config.NO_TRACE:\n            return\n        sys.settrace(self.__old_sys_trace)", new="        sys.settrace(self.__old_sys_trace)", props=['C14']),
  dict(id='C14-no-shutdown-flag', file='src/deep/processor/trigger_handler.py', old="        if self._is_shutdown:\n            return None\n", new="", props=['C14']),
+ dict(id='C20-loader-aborts', file='src/deep/api/plugin/__init__.py', old="        except (DidNotEnable, Exception) as e:\n            logging.debug(\n                \"Did not import integration %s: %s\", plugin, e\n            )", new="        except (DidNotEnable, Exception) as e:\n            logging.debug(\n                \"Did not import integration %s: %s\", plugin, e\n            )\n            return", props=['C20']),
+ dict(id='C20-no-sort', file='src/deep/api/plugin/__init__.py', old="    loaded.sort(key=lambda pl: pl.order() or 0)\n", new="", props=['C20']),
+ dict(id='C20-inactive-loaded', file='src/deep/api/plugin/__init__.py', old="                logging.debug(\"Plugin %s is not active.\", plugin_instance.name)\n                continue\n", new="                logging.debug(\"Plugin %s is not active.\", plugin_instance.name)\n", props=['C20']),
+ dict(id='C20-decorator-unguarded', file='src/deep/processor/context/snapshot_action.py', old="            except Exception:\n                deep.logging.exception(\"Failed to decorate snapshot: %s \", decorator)", new="            except ValueError:\n                deep.logging.exception(\"Failed to decorate snapshot: %s \", decorator)", props=['C20']),
+ dict(id='C20-metric-unguarded', file='src/deep/processor/context/metric_action.py', old="                except Exception:\n                    # one processor failing", new="                except ValueError:\n                    # one processor failing", props=['C20']),
+ dict(id='C20-resource-unguarded', file='src/deep/api/deep.py', old="            except Exception:\n                deep.logging.exception(\"Failed to process plugin resource {}\", provider.name)", new="            except ValueError:\n                deep.logging.exception(\"Failed to process plugin resource {}\", provider.name)", props=['C20']),
+ dict(id='C20-ctor-fail-aborts', file='src/deep/api/plugin/__init__.py', old="            logging.debug(\"Could not load plugin %s: %s\", plugin, e)\n", new="            logging.debug(\"Could not load plugin %s: %s\", plugin, e)\n            break\n", props=['C20']),
+ dict(id='C20-sort-reverse', file='src/deep/api/plugin/__init__.py', old="    loaded.sort(key=lambda pl: pl.order() or 0)\n", new="    loaded.sort(key=lambda pl: pl.order() or 0, reverse=len(loaded) > 2)\n", props=['C20']),
 ]
